@@ -818,8 +818,17 @@ func processStructProvider(fset *token.FileSet, info *types.Info, call *ast.Call
 			fmt.Errorf(firstArgReqFormat, types.TypeString(structPtr, nil)))
 	}
 
-	stExpr := call.Args[0].(*ast.CallExpr)
-	typeName := qualifiedIdentObject(info, stExpr.Args[0]) // should be either an identifier or selector
+	// The argument must be spelled new(T) with T an identifier or a qualified identifier.
+	stExpr, ok := astutil.Unparen(call.Args[0]).(*ast.CallExpr)
+	if !ok || len(stExpr.Args) != 1 || qualifiedIdentObject(info, stExpr.Fun) != types.Universe.Lookup("new") {
+		return nil, notePosition(fset.Position(call.Pos()),
+			fmt.Errorf(firstArgReqFormat, types.TypeString(structPtr, nil)))
+	}
+	typeName, ok := qualifiedIdentObject(info, stExpr.Args[0]).(*types.TypeName)
+	if !ok {
+		return nil, notePosition(fset.Position(call.Pos()),
+			fmt.Errorf(firstArgReqFormat, types.TypeString(structPtr, nil)))
+	}
 	provider := &Provider{
 		Pkg:      typeName.Pkg(),
 		Name:     typeName.Name(),
